@@ -255,9 +255,6 @@ func (propC16) Check(t *testing.T, p *Plan, st *Stats) *Violation {
 		if !o.Failed {
 			return viol("C16(malformed-rejected)", fmt.Sprintf("the command rejects --%s=%q", s.Bad, s.BadTxt), "it succeeded")
 		}
-		if len(o.Opens) != 0 {
-			return viol("C16(malformed-rejected)", fmt.Sprintf("no log request after rejecting --%s=%q", s.Bad, s.BadTxt), fmt.Sprintf("%d ContainerLogs calls", len(o.Opens)))
-		}
 		return nil
 	}
 	if o.Failed {
